@@ -12,8 +12,12 @@ for crate in ('serde_avro_fast', 'serde_avro_derive'):
     j = json.load(open(os.path.join(d, crate + '.json')))
     tab = {}
     for a in j['adts']:
-        if a.get('vis') != 'pub':
-            tab[a['path']] = {'kind': a['kind'], 'variants': [[v['name'] if a['kind'] == 'enum' else '', [f['ty'] for f in v['fields']]] for v in a['variants']]}
+        e = {'kind': a['kind'], 'variants': [[v['name'] if a['kind'] == 'enum' else '', [f['ty'] for f in v['fields']]] for v in a['variants']]}
+        if a.get('vis') == 'pub':
+            # public types are listed too, flagged: one that MOVES to another module under the same name (re-exported at
+            # its old path) is read under the reviewed path; a public type is never matched under another name
+            e['pub'] = True
+        tab[a['path']] = e
     out[crate] = tab
 p = os.path.join(V, 'savf', 'tables', 'private_adts.json')
 json.dump(out, open(p, 'w'), indent=1, sort_keys=True)
